@@ -1,7 +1,7 @@
 ID = 'C07'
 UNITS = {'img': dict(wrap='wrap.cc', new_block=64)}
 BOUNDS = ''
-STUBS = []
+STUBS = ['vasprintf: exact mini-model engine/rt/stub_printf.h (literals, %c, %s, hex); used only by the draw_text harness to build the 1-2 character string']
 OUTSIDE = []
 ASSUMPTIONS = []
 
@@ -61,13 +61,22 @@ def queries(tier):
                     desc='draw_line direction (%d,%d), start anywhere in [-3,size+3]^2 on %dx%d: marked pixels on the ideal segment; both ends inside => connected path of max(|dx|,|dy|)+1 pixels' % (dx, dy, W, H),
                     bounds='canvas %dx%d, direction (%d,%d), start in [-3,size+3]^2' % (W, H, dx, dy))
     BK = ['fill', 'blit', 'blendblit', 'blendblit_alpha']
-    def blq(kind, DA, SA, CW, chan, backend='kissat', timeout=600):
+    def blq(kind, DA, SA, CW, chan, backend='z3', timeout=600):
         return dict(name='blend1_%s_da%d_sa%d_cw%d_ch%d' % (BK[kind], DA, SA, CW, chan), unit='img', harness='h_blend.c', defs={'KIND': kind, 'DA': DA, 'SA': SA, 'CW': CW, 'CHAN': chan}, unwind=18,
                     timeout=timeout, mem_gb=8, object_bits=12, backend=backend,
                     desc='%s on one pixel (%d-bit channels, dest alpha=%d, source alpha=%d): channel %d equals the truncating alpha-blend formula' % (BK[kind], CW, DA, SA, chan),
                     bounds='1x1 canvases, all channel values, all alphas')
     if tier == 'quick':
         qs += [blq(0, 1, 1, 8, 0), blq(0, 1, 1, 8, 3), blq(1, 1, 1, 8, 1), blq(1, 1, 1, 8, 3), blq(2, 1, 1, 8, 2), blq(2, 1, 1, 8, 3), blq(3, 1, 1, 8, 0), blq(3, 1, 1, 8, 3)]
+    def txq(mode, W, H, A, BA, nch=1):
+        n = (W + 2) * (H + 2) * (3 + A) + 2
+        defs = {'MODE': mode, 'W': W, 'H': H, 'ALPHA': A, 'BA': BA, 'NCH': nch}
+        return dict(name='text_%s_%dx%da%d_ba%d_n%d' % (('model', 'clipinv')[mode], W, H, A, BA, nch), unit='img', harness='h_text.c', defs=defs, unwind=9,
+                    unwindset=COPY_LOOPS % ((n,) * 5) + ',X_vasprintf.0:8,' + loops(OPFN['fill'], max(W, H) + (3 if mode else 1)), timeout=900, mem_gb=8, object_bits=12,
+                    desc='draw_text %s on %dx%d (alpha=%d, background alpha %d, %d symbolic char(s)), position anywhere in [-7,W+1]x[-9,H+1]' % (('glyph/background per-pixel model', 'clipping invariance small vs (W+2)x(H+2)')[mode], W, H, A, BA, nch),
+                    bounds='canvas %dx%d, %d character(s), 8-bit channels' % (W, H, nch))
+    if tier == 'quick':
+        qs += [txq(0, 3, 3, 1, 255), txq(0, 4, 2, 0, 0), txq(1, 3, 3, 0, 255, 1), txq(1, 2, 2, 1, 0, 2)]
     IK = ['mirrorh', 'mirrorv', 'invert', 'alpha', 'width', 'copy', 'assign', 'move']
     def ivq(kind, W, H, A, CW, CW2=16):
         n = W * H * 4 * max(CW, CW2 if kind == 4 else 8) // 8 + 2
